@@ -1046,6 +1046,212 @@ fn run_typed(rep: &mut Report, rng: &mut Rng, which: usize) {
     cx.rep.case(&format!("typed {} {} {}", script, order, index), nontrivial);
 }
 
+// ---------------------------------------------------------------------------------------------
+// the slice law in every position a query block can occur
+// ---------------------------------------------------------------------------------------------
+
+fn opt_sql(v: &Option<i64>) -> String {
+    v.map(|x| x.to_string()).unwrap_or("NULL".into())
+}
+
+fn opt_canon(v: &Option<i64>) -> String {
+    v.map(|x| format!("I{}", x)).unwrap_or("N".into())
+}
+
+/// reference: sort (NULLs last in both directions), optional DISTINCT, slice [m, m+n)
+fn ref_slice(vals: &[Option<i64>], desc: bool, distinct: bool, n: Option<usize>, m: Option<usize>) -> Vec<Option<i64>> {
+    let mut v: Vec<Option<i64>> = vals.to_vec();
+    v.sort_by(|a, b| match (a, b) {
+        (None, None) => std::cmp::Ordering::Equal,
+        (None, _) => std::cmp::Ordering::Greater,
+        (_, None) => std::cmp::Ordering::Less,
+        (Some(x), Some(y)) => if desc { y.cmp(x) } else { x.cmp(y) },
+    });
+    if distinct {
+        v.dedup();
+    }
+    let start = m.unwrap_or(0).min(v.len());
+    let end = match n {
+        Some(n) => (start + n).min(v.len()),
+        None => v.len(),
+    };
+    v[start..end].to_vec()
+}
+
+fn bag_of(vals: impl Iterator<Item = String>) -> BTreeMap<String, i64> {
+    let mut m = BTreeMap::new();
+    for v in vals {
+        *m.entry(v).or_insert(0) += 1;
+    }
+    m
+}
+
+/// ORDER BY … LIMIT/OFFSET inside IN / NOT IN / EXISTS / scalar subqueries, derived tables, CTEs,
+/// views, operands of set operations and INSERT … SELECT: the block must denote the slice [m, m+n)
+/// of its sorted rows (after DISTINCT), whatever surrounds it
+#[allow(clippy::too_many_arguments)]
+fn nested_slice_case(rep: &mut Report, model: &mut model::Model, t1: &[Option<i64>], t2: &[Option<i64>], desc: bool, distinct: bool, n: Option<usize>, m: Option<usize>) {
+    let mut db = Db::new();
+    db.keep_log = false;
+    db.must("CREATE TABLE t1 (a INTEGER, v INTEGER)");
+    db.must("CREATE TABLE t2 (b INTEGER, w INTEGER)");
+    db.must("CREATE TABLE t3 (c INTEGER)");
+    let mut script = String::from("CREATE TABLE t1 (a INTEGER, v INTEGER);\nCREATE TABLE t2 (b INTEGER, w INTEGER);\nCREATE TABLE t3 (c INTEGER);\n");
+    for (name, vals) in [("t1", t1), ("t2", t2)] {
+        if !vals.is_empty() {
+            let ins = format!("INSERT INTO {} VALUES {}", name, vals.iter().enumerate().map(|(i, v)| format!("({}, {})", opt_sql(v), i)).collect::<Vec<_>>().join(", "));
+            db.must(&ins);
+            script.push_str(&format!("{};\n", ins));
+        }
+    }
+    let tail = format!("{}{}", n.map(|n| format!(" LIMIT {}", n)).unwrap_or_default(), m.map(|m| format!(" OFFSET {}", m)).unwrap_or_default());
+    let dir = if desc { " DESC" } else { "" };
+    let dis = if distinct { "DISTINCT " } else { "" };
+    let sub = format!("SELECT {}b FROM t2 ORDER BY b{}{}", dis, dir, tail);
+    let s = ref_slice(t2, desc, distinct, n, m);
+    // the model's slice (runOnResult: sort → DISTINCT → LIMIT/OFFSET) must be the same sequence
+    let req = format!(
+        "result (rows ({})) (order (0 {})) {} {} {}",
+        t2.iter().map(|v| format!("({})", opt_canon(v))).collect::<Vec<_>>().join(" "),
+        if desc { "desc" } else { "asc" },
+        distinct as u8,
+        n.map(|x| x.to_string()).unwrap_or("-".into()),
+        m.map(|x| x.to_string()).unwrap_or("-".into())
+    );
+    let reply = model.ask(&req);
+    rep.traces_validated += 1;
+    let want = format!("(rows ({}))", s.iter().map(|v| format!("({})", opt_canon(v))).collect::<Vec<_>>().join(" "));
+    if reply != want {
+        rep.fail(FailKind::ModelDiff, None, "nested slice: the model's slice differs from the reference slice", &format!("-- model request: {}\nmodel: {}\nreference: {}", req, reply, want));
+    }
+    let snn: Vec<i64> = s.iter().flatten().cloned().collect();
+    let has_null = s.iter().any(|v| v.is_none());
+    let s_bag = bag_of(s.iter().map(|v| format!("({})", opt_canon(v))));
+    let a_rows = |keep: &dyn Fn(&Option<i64>) -> bool| bag_of(t1.iter().filter(|a| keep(a)).map(|a| format!("({})", opt_canon(a))));
+    // (position, SQL, expected bag of rows in canonical text)
+    let mut checks: Vec<(&str, String, BTreeMap<String, i64>)> = vec![];
+    checks.push(("in", format!("SELECT a FROM t1 WHERE a IN ({})", sub), a_rows(&|a| a.map(|x| snn.contains(&x)).unwrap_or(false))));
+    checks.push(("in_and", format!("SELECT a FROM t1 WHERE v >= 0 AND a IN ({})", sub), a_rows(&|a| a.map(|x| snn.contains(&x)).unwrap_or(false))));
+    checks.push((
+        "not_in",
+        format!("SELECT a FROM t1 WHERE a NOT IN ({})", sub),
+        a_rows(&|a| if s.is_empty() { true } else if has_null { false } else { a.map(|x| !snn.contains(&x)).unwrap_or(false) }),
+    ));
+    checks.push(("exists", format!("SELECT a FROM t1 WHERE EXISTS ({})", sub), a_rows(&|_| !s.is_empty())));
+    checks.push(("not_exists", format!("SELECT a FROM t1 WHERE NOT EXISTS ({})", sub), a_rows(&|_| s.is_empty())));
+    // correlated: the slice is taken per outer row, after the correlation predicate
+    let corr = |a: &Option<i64>, ge: bool| -> bool {
+        match a {
+            None => false,
+            Some(x) => {
+                let inner: Vec<Option<i64>> = t2.iter().filter(|b| b.map(|y| if ge { y >= *x } else { y == *x }).unwrap_or(false)).cloned().collect();
+                !ref_slice(&inner, desc, distinct, n, m).is_empty()
+            }
+        }
+    };
+    checks.push(("exists_correlated_range", format!("SELECT a FROM t1 WHERE EXISTS (SELECT {}b FROM t2 WHERE b >= t1.a ORDER BY b{}{})", dis, dir, tail), a_rows(&|a| corr(a, true))));
+    checks.push(("exists_correlated_eq", format!("SELECT a FROM t1 WHERE EXISTS (SELECT {}b FROM t2 WHERE t2.b = t1.a ORDER BY b{}{})", dis, dir, tail), a_rows(&|a| corr(a, false))));
+    checks.push(("not_exists_correlated", format!("SELECT a FROM t1 WHERE NOT EXISTS (SELECT {}b FROM t2 WHERE t2.b = t1.a ORDER BY b{}{})", dis, dir, tail), a_rows(&|a| !corr(a, false))));
+    checks.push((
+        "in_correlated",
+        format!("SELECT a FROM t1 WHERE a IN (SELECT {}b FROM t2 WHERE w >= t1.v ORDER BY b{}{})", dis, dir, tail),
+        bag_of(t1.iter().enumerate().filter(|(i, a)| {
+            let inner: Vec<Option<i64>> = t2.iter().enumerate().filter(|(j, _)| j >= i).map(|(_, b)| *b).collect();
+            a.map(|x| ref_slice(&inner, desc, distinct, n, m).contains(&Some(x))).unwrap_or(false)
+        }).map(|(_, a)| format!("({})", opt_canon(a)))),
+    ));
+    // scalar subquery: ORDER BY … LIMIT 1 OFFSET m picks the (m+1)-th value
+    let pick = ref_slice(t2, desc, distinct, Some(1), m);
+    let picked = pick.first().cloned().unwrap_or(None);
+    checks.push((
+        "scalar",
+        format!("SELECT a, (SELECT {}b FROM t2 ORDER BY b{} LIMIT 1{}) FROM t1", dis, dir, m.map(|m| format!(" OFFSET {}", m)).unwrap_or_default()),
+        bag_of(t1.iter().map(|a| format!("({} {})", opt_canon(a), opt_canon(&picked)))),
+    ));
+    checks.push(("derived", format!("SELECT x.b FROM ({}) AS x", sub), s_bag.clone()));
+    checks.push(("cte", format!("WITH c AS ({}) SELECT b FROM c", sub), s_bag.clone()));
+    let s1 = ref_slice(t1, !desc, false, n, m);
+    let mut both = s_bag.clone();
+    for v in &s1 {
+        *both.entry(format!("({})", opt_canon(v))).or_insert(0) += 1;
+    }
+    checks.push((
+        "setop_operands",
+        format!("SELECT b FROM ({}) AS x UNION ALL SELECT a FROM (SELECT a FROM t1 ORDER BY a{}{}) AS y", sub, if desc { "" } else { " DESC" }, tail),
+        both,
+    ));
+    for (pos, q, want) in checks {
+        let o = db.query(&q);
+        rep.count(&format!("nested_slice_{}", pos));
+        match o.rows() {
+            Some(r) => {
+                if bag_of(r.iter().map(|x| canon::row(x))) != want {
+                    rep.fail(
+                        FailKind::Oracle,
+                        None,
+                        &format!("nested slice [{}]: the block does not denote the slice [m, m+n) of its sorted rows", pos),
+                        &format!("{}-- query: {}\n-- slice of the sorted subquery rows: {:?}\nexpected rows (as a multiset): {:?}\nengine: {}", script, q, s, want, o.brief()),
+                    );
+                }
+            }
+            None => rep.count(&format!("nested_slice_rejected_{}", pos)),
+        }
+    }
+    // view definition and INSERT … SELECT
+    if db.exec(&format!("CREATE VIEW vw AS {}", sub)).is_ok() {
+        let o = db.query("SELECT b FROM vw");
+        rep.count("nested_slice_view");
+        if o.rows().map(|r| bag_of(r.iter().map(|x| canon::row(x)))) != Some(s_bag.clone()) {
+            rep.fail(FailKind::Oracle, None, "nested slice [view]: the view does not denote the slice of its sorted rows", &format!("{}CREATE VIEW vw AS {};\n-- query: SELECT b FROM vw\n-- slice: {:?}\nengine: {}", script, sub, s, o.brief()));
+        }
+    } else {
+        rep.count("nested_slice_rejected_view");
+    }
+    let ins = db.exec(&format!("INSERT INTO t3 {}", sub));
+    if ins.is_ok() {
+        let o = db.query("SELECT c FROM t3");
+        rep.count("nested_slice_insert_select");
+        if o.rows().map(|r| bag_of(r.iter().map(|x| canon::row(x)))) != Some(s_bag.clone()) {
+            rep.fail(FailKind::Oracle, None, "nested slice [insert-select]: INSERT … SELECT … ORDER BY … LIMIT/OFFSET did not insert the slice", &format!("{}INSERT INTO t3 {};\n-- query: SELECT c FROM t3\n-- slice: {:?}\nengine: {}", script, sub, s, o.brief()));
+        }
+    } else {
+        rep.count("nested_slice_rejected_insert_select");
+    }
+    rep.case(&format!("nested {} {:?} {:?} {}", script, n, m, sub), !s.is_empty() && s.len() < t2.len());
+}
+
+fn probe_nested_slices(rep: &mut Report, model: &mut model::Model) {
+    let t1 = [Some(1), Some(2), Some(3), None, Some(5), Some(2)];
+    let t2 = [Some(3), Some(1), Some(2), Some(2), None, Some(5), Some(4)];
+    for desc in [false, true] {
+        for distinct in [false, true] {
+            for (n, m) in [(None, Some(2)), (None, Some(6)), (None, Some(7)), (Some(0), None), (Some(3), None), (Some(9), None), (Some(2), Some(1)), (Some(1), Some(3)), (Some(3), Some(6))] {
+                nested_slice_case(rep, model, &t1, &t2, desc, distinct, n, m);
+                rep.count("deterministic_probes");
+            }
+        }
+    }
+}
+
+fn run_nested_slice(rep: &mut Report, model: &mut model::Model, rng: &mut Rng) {
+    let gen = |rng: &mut Rng, len: usize| -> Vec<Option<i64>> { (0..len).map(|_| if rng.chance(1, 6) { None } else { Some(rng.range(-1, 5)) }).collect() };
+    let l1 = rng.range(0, 8) as usize;
+    let l2 = rng.range(0, 9) as usize;
+    let (t1, t2) = (gen(rng, l1), gen(rng, l2));
+    let n = match rng.below(4) {
+        0 => None,
+        1 => Some(0),
+        _ => Some(rng.range(1, l2 as i64 + 2) as usize),
+    };
+    let m = match rng.below(4) {
+        0 => None,
+        1 => Some(l2 + rng.below(2) as usize),
+        _ => Some(rng.range(0, l2 as i64 + 1) as usize),
+    };
+    let (n, m) = if n.is_none() && m.is_none() { (None, Some(1)) } else { (n, m) };
+    nested_slice_case(rep, model, &t1, &t2, rng.chance(1, 2), rng.chance(1, 3), n, m);
+}
+
 /// regression probe for 1db75cd3: SIMD filter path (>= 100 rows, WHERE) with a NULL in the first row's VARCHAR
 fn probe_simd(rep: &mut Report) {
     let mut db = Db::new();
@@ -1079,9 +1285,14 @@ fn main() {
     let mut rng = Rng::new(args.seed);
     run_probes(&mut rep);
     probe_simd(&mut rep);
+    probe_nested_slices(&mut rep, &mut model);
     let n = args.n(1500, 40000);
     for i in 0..n {
         let mut r = rng.fork();
+        if i % 16 == 0 {
+            let mut r4 = r.fork();
+            run_nested_slice(&mut rep, &mut model, &mut r4);
+        }
         if i % 3 == 1 {
             let mut r3 = r.fork();
             run_typed(&mut rep, &mut r3, (i / 3) as usize);
